@@ -5,6 +5,7 @@ CONSTANTS MaxRuns = 3
   BufSizes = {1, 2, 3, 1000}
   Edges1 <- E1
   EdgesY <- EY
+  Caches = {FALSE, TRUE}
   WriteAlways = FALSE
 VIEW view
 INVARIANT BufBound
@@ -14,4 +15,5 @@ INVARIANT OneResultPerBranch
 INVARIANT NoRedo
 INVARIANT RedoRef
 INVARIANT RunIsSem
+INVARIANT CacheRef
 CHECK_DEADLOCK FALSE
